@@ -30,3 +30,19 @@ Theorem C19_total_boardings : forall d rs,
   fold_right Z.add 0 (map snd (summary_lines d rs)) = Z.of_nat (length (flat_map (route_lines d) rs)).
 Proof. exact summary_lines_total. Qed.
 Print Assumptions C19_total_boardings.
+
+(* ---- the HTTP handler composed with factories, calculation and renderer (Http.v, Proofs/HttpProofs.v) ---- *)
+From TrV Require Import Params Http Proofs.HttpProofs Properties.Common.
+From TrV Require Import Spec Admissible Optimal Server Render Proofs.ServerInv Proofs.EndToEnd.
+
+Theorem C19_http_summary_of_route : forall (uuid_of : Params.str -> option nat), forall sv kvs acc egr,
+  let d := sv_data sv in
+  let route := fst (http_serve uuid_of sv 0 ERoute kvs acc egr) in
+  let summary := fst (http_serve uuid_of sv 0 ESummary kvs acc egr) in
+  (forall rs total q, route = HttpR 200 (HRoute rs total q) ->
+     summary = HttpR 200 (HSummary (Z.of_nat (length rs)) (summary_lines d rs) q)) /\
+  (forall reason q, route = HttpR 200 (HNoRouting reason q) -> summary = HttpR 200 (HSummary 0 [] q)) /\
+  (forall code e, route = HttpR code (HQueryError e) -> summary = HttpR code (HQueryError e)).
+Proof. exact HttpProofs.http_summary_of_route. Qed.
+Print Assumptions C19_http_summary_of_route.
+
